@@ -13,6 +13,7 @@ import Resonate.Proofs.SysInv
 import Resonate.Proofs.SysDb
 import Resonate.Proofs.AllYieldsK
 import Resonate.Proofs.Responds
+import Resonate.Proofs.Productive
 import Resonate.Properties.C06
 namespace Resonate
 open Coro SqlSpec
@@ -210,11 +211,14 @@ structure Static (d : Dialect) (th : Thread) : Prop where
   np : ∀ t lo now, t ≤ now → NoPanic d lo now (th.restart t)
   ak : ∀ t, AllYields KOk (th.restart t)
   rs : th.isBg = none → ∀ t, Resp1 (th.restart t)
+  dp : ∀ t, Depth maxDepth (th.restart t)
+  qk : ∀ t, Quick 1 (th.restart t)
 
 /-- a blocked thread, relative to the database `db`, the pending submissions `P`, the completion queue `Q` and the clock -/
 structure TInv (d : Dialect) (db : Db) (P : List (SubId × Subm)) (Q : List (SubId × Cpl)) (clk : Time) (th : Thread) : Prop where
   static : Static d th
   resp : th.isBg = none → Resp1 th.co
+  dp : Depth maxDepth th.co
   blocked : ∃ subs k lo now base, th.co = .yield subs k ∧ subs ≠ [] ∧ NoPanic d lo now (.yield subs k) ∧ AllYields KOk (.yield subs k) ∧
      PromMono lo db ∧ now ≤ clk ∧ th.nextSeq = base + subs.length ∧ SlotsOk (AnswerOne d lo db) base subs th.slots ∧
      (∀ e ∈ P, e.1.tid = th.tid → SubOk base subs e.1.seq e.2 ∧ e.1.seq < th.nextSeq) ∧
@@ -228,31 +232,33 @@ structure Runnable (d : Dialect) (db : Db) (P : List (SubId × Subm)) (Q : List 
   pend : ∀ e ∈ P, e.1.tid = th.tid → e.1.seq < th.nextSeq
   cq : ∀ e ∈ Q, e.1.tid = th.tid → e.1.seq < th.nextSeq
   rs : th.isBg = none → Resp1 th.co
+  dp : Depth maxDepth th.co
 
 theorem run_spec (d : Dialect) (db : Db) (P : List (SubId × Subm)) (Q : List (SubId × Cpl)) (t : Time) :
     ∀ (fuel : Nat) (th : Thread), Runnable d db P Q t th →
       (∀ e ∈ (th.run t fuel).2.1, e.isAssert = false) ∧
       (∀ e ∈ (th.run t fuel).2.2.1, e.1.tid = th.tid ∧ ∀ tx, e.2 = .store tx → KOk tx) ∧
-      ((th.run t fuel).2.2.2 = none → ∀ x, (th.run t fuel).1 = some x → x.tid = th.tid ∧ TInv d db (P ++ (th.run t fuel).2.2.1) Q t x) := by
+      ((th.run t fuel).2.2.2 = none → ∀ x, (th.run t fuel).1 = some x → x.tid = th.tid ∧ TInv d db (P ++ (th.run t fuel).2.2.1) Q t x) ∧
+      (∀ n, Quick n th.co → n + 1 ≤ fuel → (th.run t fuel).2.2.2 = none) := by
   intro fuel
   induction fuel with
   | zero =>
     intro th _
-    refine ⟨by intro e he; simp [Thread.run] at he, by intro e he; simp [Thread.run] at he, by intro h; simp [Thread.run] at h⟩
+    refine ⟨by intro e he; simp [Thread.run] at he, by intro e he; simp [Thread.run] at he, by intro h; simp [Thread.run] at h, by intro n _ hn; omega⟩
   | succ n ih =>
     intro th h
     unfold Thread.run
     split
     · -- done
       split
-      · refine ⟨?_, by intro e he; simp at he, by intro _ x hx; simp at hx⟩
+      · refine ⟨?_, by intro e he; simp at he, by intro _ x hx; simp at hx, by intro _ _ _; rfl⟩
         intro e he; simp only [List.mem_singleton] at he; subst he; rfl
       · -- a request coroutine finished without a response: excluded
         rename_i hbg hco
         have := h.rs hbg
         rw [hco] at this
         cases this
-      · refine ⟨?_, by intro e he; simp at he, by intro _ x hx; simp at hx⟩
+      · refine ⟨?_, by intro e he; simp at he, by intro _ x hx; simp at hx, by intro _ _ _; rfl⟩
         intro e he; simp only [List.mem_singleton] at he; subst he; rfl
     · -- panic: excluded
       rename_i site hco
@@ -260,20 +266,27 @@ theorem run_spec (d : Dialect) (db : Db) (P : List (SubId × Subm)) (Q : List (S
       rw [hco] at this
       cases this
     · -- retry
+      rename_i hco
       have hr : Runnable d db P Q t { th with co := th.restart t } :=
-        ⟨⟨h.static.np, h.static.ak, h.static.rs⟩, h.static.np t db t (Int.le_refl _), h.static.ak t, h.pend, h.cq, fun hb => h.static.rs hb t⟩
-      exact ih _ hr
+        ⟨⟨h.static.np, h.static.ak, h.static.rs, h.static.dp, h.static.qk⟩, h.static.np t db t (Int.le_refl _), h.static.ak t, h.pend, h.cq, fun hb => h.static.rs hb t, h.static.dp t⟩
+      obtain ⟨i1, i2, i3, i4⟩ := ih _ hr
+      refine ⟨i1, i2, i3, ?_⟩
+      intro m hq hm
+      rw [hco] at hq
+      cases hq with
+      | retry m' => exact i4 1 (h.static.qk t) (by omega)
     · rename_i subs k hco
       have hnp := h.np
       have hak := h.ak
       have hrs := h.rs
-      rw [hco] at hnp hak hrs
+      have hdp := h.dp
+      rw [hco] at hnp hak hrs hdp
       split
       · -- empty yield: continue at once
         rename_i hemp
         have hs : subs = [] := by simpa using hemp
         have hr : Runnable d db P Q t { th with co := k t [] } := by
-          refine ⟨⟨h.static.np, h.static.ak, h.static.rs⟩, ?_, ?_, h.pend, h.cq, ?_⟩
+          refine ⟨⟨h.static.np, h.static.ak, h.static.rs, h.static.dp, h.static.qk⟩, ?_, ?_, h.pend, h.cq, ?_, ?_⟩
           · cases hnp with
             | yield _ _ _ _ hk => exact hk t [] db (Int.le_refl _) (PromMono.refl _) (by rw [hs]; trivial)
           · cases hak with
@@ -281,12 +294,20 @@ theorem run_spec (d : Dialect) (db : Db) (P : List (SubId × Subm)) (Q : List (S
           · intro hb
             cases hrs hb with
             | yield _ _ hk => exact hk t []
-        exact ih _ hr
+          · cases hdp with
+            | yield _ _ _ hk => exact (hk t []).mono (by unfold maxDepth; omega)
+        obtain ⟨i1, i2, i3, i4⟩ := ih _ hr
+        refine ⟨i1, i2, i3, ?_⟩
+        intro m hq hm
+        rw [hco] at hq
+        cases hq with
+        | block _ _ _ hne' => exact absurd hs hne'
+        | skip m' _ _ hk => exact i4 m' (hk t) (by omega)
       · rename_i hne
         have hs : subs ≠ [] := by intro h0; simp [h0] at hne
         dsimp only
         rw [disp_eq th.tid subs th.nextSeq, slots_eq subs th.nextSeq]
-        refine ⟨?_, ?_, ?_⟩
+        refine ⟨?_, ?_, ?_, by intro _ _ _; rfl⟩
         · intro e he
           simp only [List.mem_map] at he
           obtain ⟨x, _, rfl⟩ := he
@@ -300,7 +321,7 @@ theorem run_spec (d : Dialect) (db : Db) (P : List (SubId × Subm)) (Q : List (S
         · intro _ x hx
           simp only [Option.some.injEq] at hx
           subst hx
-          refine ⟨rfl, ⟨h.static.np, h.static.ak, h.static.rs⟩, hrs, subs, k, db, t, th.nextSeq, rfl, hs, hnp, hak, PromMono.refl _, Int.le_refl _, rfl,
+          refine ⟨rfl, ⟨h.static.np, h.static.ak, h.static.rs, h.static.dp, h.static.qk⟩, hrs, hdp, subs, k, db, t, th.nextSeq, rfl, hs, hnp, hak, PromMono.refl _, Int.le_refl _, rfl,
             freshSlots_ok _ _ _, ?_, ?_⟩
           · intro e he htid
             rcases List.mem_append.mp he with he | he
@@ -330,8 +351,8 @@ theorem run_tid (t : Time) : ∀ (fuel : Nat) (th : Thread) (x : Thread), (th.ru
 
 theorem tinv_pending {d : Dialect} {db : Db} {P P' : List (SubId × Subm)} {Q : List (SubId × Cpl)} {clk : Time} {th : Thread}
     (h : TInv d db P Q clk th) (hp : ∀ e ∈ P', e ∈ P ∨ e.1.tid ≠ th.tid) : TInv d db P' Q clk th := by
-  obtain ⟨hs, hrs, subs, k, lo, now, base, h1, h2, h3, h4, h5, h6, h7, h8, h9, h10⟩ := h
-  refine ⟨hs, hrs, subs, k, lo, now, base, h1, h2, h3, h4, h5, h6, h7, h8, ?_, h10⟩
+  obtain ⟨hs, hrs, hdp, subs, k, lo, now, base, h1, h2, h3, h4, h5, h6, h7, h8, h9, h10⟩ := h
+  refine ⟨hs, hrs, hdp, subs, k, lo, now, base, h1, h2, h3, h4, h5, h6, h7, h8, ?_, h10⟩
   intro e he htid
   rcases hp e he with h | h
   · exact h9 e h htid
@@ -346,23 +367,25 @@ theorem runAll_spec (d : Dialect) (db : Db) (Q : List (SubId × Cpl)) (t : Time)
       (∀ e ∈ (runAll t cands).2.2.1, (∃ c ∈ cands, e.1.tid = c.1.tid) ∧ ∀ tx, e.2 = .store tx → KOk tx) ∧
       (∀ x ∈ (runAll t cands).1, ∃ c ∈ cands, x.tid = c.1.tid) ∧
       TidsDistinct ((runAll t cands).1.map (·.tid)) ∧
-      ((runAll t cands).2.2.2 = none → ∀ x ∈ (runAll t cands).1, TInv d db (P ++ (runAll t cands).2.2.1) Q t x) := by
+      ((runAll t cands).2.2.2 = none → ∀ x ∈ (runAll t cands).1, TInv d db (P ++ (runAll t cands).2.2.1) Q t x) ∧
+      (runAll t cands).2.2.2 = none := by
   intro cands
   induction cands with
   | nil =>
     intro _ _ _
     simp only [runAll]
-    refine ⟨?_, ?_, ?_, List.Pairwise.nil, ?_⟩
+    refine ⟨?_, ?_, ?_, List.Pairwise.nil, ?_, ?_⟩
     · intro e he; cases he
     · intro e he; cases he
     · intro x hx; cases hx
     · intro _ x hx; cases hx
+    · trivial
   | cons c rest ih =>
     intro hd hf ht
     obtain ⟨th, b⟩ := c
     simp only [List.map_cons, TidsDistinct, List.pairwise_cons] at hd
     obtain ⟨hd1, hd2⟩ := hd
-    obtain ⟨i1, i2, i3, i4, i5⟩ := ih hd2 (fun c hc => hf c (List.mem_cons_of_mem _ hc)) (fun c hc => ht c (List.mem_cons_of_mem _ hc))
+    obtain ⟨i1, i2, i3, i4, i5, i6⟩ := ih hd2 (fun c hc => hf c (List.mem_cons_of_mem _ hc)) (fun c hc => ht c (List.mem_cons_of_mem _ hc))
     -- a thread of the rest has a thread id different from the head's
     have hrest : ∀ x ∈ (runAll t rest).1, x.tid ≠ th.tid := by
       intro x hx
@@ -378,7 +401,7 @@ theorem runAll_spec (d : Dialect) (db : Db) (Q : List (SubId × Cpl)) (t : Time)
     | false =>
       simp only [runAll]
       have hth := hf (th, false) (List.mem_cons_self ..) rfl
-      refine ⟨i1, ?_, ?_, ?_, ?_⟩
+      refine ⟨i1, ?_, ?_, ?_, ?_, i6⟩
       · intro e he
         obtain ⟨⟨c, hc, h1⟩, h2⟩ := i2 e he
         exact ⟨⟨c, List.mem_cons_of_mem _ hc, h1⟩, h2⟩
@@ -406,13 +429,15 @@ theorem runAll_spec (d : Dialect) (db : Db) (Q : List (SubId × Cpl)) (t : Time)
     | true =>
       simp only [runAll]
       have hth := ht (th, true) (List.mem_cons_self ..) rfl
-      obtain ⟨r1, r2, r3⟩ := run_spec d db P Q t fuelPerThread th hth
+      obtain ⟨r1, r2, r3, r4⟩ := run_spec d db P Q t fuelPerThread th hth
       have hhead : ∀ x ∈ (match (th.run t fuelPerThread).1 with | some x => [x] | none => []), (th.run t fuelPerThread).1 = some x := by
         intro x hx
         cases hr : (th.run t fuelPerThread).1 with
         | none => simp [hr] at hx
         | some y => simp only [hr, List.mem_singleton] at hx; rw [hx]
-      refine ⟨?_, ?_, ?_, ?_, ?_⟩
+      have hnofuel : (th.run t fuelPerThread).2.2.2 = none :=
+        r4 (maxDepth + 1) (quick_of_depth hth.dp) (by decide)
+      refine ⟨?_, ?_, ?_, ?_, ?_, by simp [hnofuel, i6]⟩
       · intro e he
         rcases List.mem_append.mp he with he | he
         · exact r1 e he
@@ -476,8 +501,8 @@ theorem runAll_spec (d : Dialect) (db : Db) (Q : List (SubId × Cpl)) (t : Time)
 
 theorem tinv_weaken {d : Dialect} {db : Db} {P : List (SubId × Subm)} {Q Q' : List (SubId × Cpl)} {clk clk' : Time} {th : Thread}
     (h : TInv d db P Q clk th) (hq : ∀ e ∈ Q', e ∈ Q) (hc : clk ≤ clk') : TInv d db P Q' clk' th := by
-  obtain ⟨hs, hrs, subs, k, lo, now, base, h1, h2, h3, h4, h5, h6, h7, h8, h9, h10⟩ := h
-  exact ⟨hs, hrs, subs, k, lo, now, base, h1, h2, h3, h4, h5, Int.le_trans h6 hc, h7, h8, h9, fun e he => h10 e (hq e he)⟩
+  obtain ⟨hs, hrs, hdp, subs, k, lo, now, base, h1, h2, h3, h4, h5, h6, h7, h8, h9, h10⟩ := h
+  exact ⟨hs, hrs, hdp, subs, k, lo, now, base, h1, h2, h3, h4, h5, Int.le_trans h6 hc, h7, h8, h9, fun e he => h10 e (hq e he)⟩
 
 theorem tinv_fill {d : Dialect} {db : Db} {P : List (SubId × Subm)} {Q : List (SubId × Cpl)} {clk : Time} {th : Thread}
     (h : TInv d db P Q clk th) (dc : SubId × Cpl) (hdc : dc ∈ Q) :
@@ -485,8 +510,8 @@ theorem tinv_fill {d : Dialect} {db : Db} {P : List (SubId × Subm)} {Q : List (
   split
   · rename_i htid
     have htid' : dc.1.tid = th.tid := by simpa using (beq_iff_eq.mp htid).symm
-    obtain ⟨hs, hrs, subs, k, lo, now, base, h1, h2, h3, h4, h5, h6, h7, h8, h9, h10⟩ := h
-    refine ⟨⟨hs.np, hs.ak, hs.rs⟩, hrs, subs, k, lo, now, base, h1, h2, h3, h4, h5, h6, h7, ?_, h9, h10⟩
+    obtain ⟨hs, hrs, hdp, subs, k, lo, now, base, h1, h2, h3, h4, h5, h6, h7, h8, h9, h10⟩ := h
+    refine ⟨⟨hs.np, hs.ak, hs.rs, hs.dp, hs.qk⟩, hrs, hdp, subs, k, lo, now, base, h1, h2, h3, h4, h5, h6, h7, ?_, h9, h10⟩
     exact slotsOk_fill dc.1.seq dc.2 subs base th.slots h8 (h10 dc hdc htid').1
   · exact h
 
@@ -525,7 +550,7 @@ theorem resume_tid (th th' : Thread) (t : Time) (h : th.resume? t = some th') : 
 
 theorem resume_runnable {d : Dialect} {db : Db} {P : List (SubId × Subm)} {Q : List (SubId × Cpl)} {clk t : Time} {th th' : Thread}
     (h : TInv d db P Q clk th) (hc : clk ≤ t) (hr : th.resume? t = some th') : Runnable d db P Q t th' := by
-  obtain ⟨hs, hrs, subs, k, lo, now, base, h1, h2, h3, h4, h5, h6, h7, h8, h9, h10⟩ := h
+  obtain ⟨hs, hrs, hdp, subs, k, lo, now, base, h1, h2, h3, h4, h5, h6, h7, h8, h9, h10⟩ := h
   unfold Thread.resume? at hr
   split at hr
   · cases hr
@@ -538,7 +563,7 @@ theorem resume_runnable {d : Dialect} {db : Db} {P : List (SubId × Subm)} {Q : 
         rw [h1] at hco
         injection hco with e1 e2
         subst e1; subst e2
-        refine ⟨⟨hs.np, hs.ak, hs.rs⟩, ?_, ?_, fun e he ht => (h9 e he ht).2, fun e he ht => (h10 e he ht).2, ?_⟩
+        refine ⟨⟨hs.np, hs.ak, hs.rs, hs.dp, hs.qk⟩, ?_, ?_, fun e he ht => (h9 e he ht).2, fun e he ht => (h10 e he ht).2, ?_, ?_⟩
         · cases h3 with
           | yield _ _ _ _ hk =>
             exact hk t _ db (Int.le_trans h6 hc) h5 (answers'_eq d lo db _ _ (slotsOk_answers subs base th.slots h8 hall))
@@ -549,6 +574,9 @@ theorem resume_runnable {d : Dialect} {db : Db} {P : List (SubId × Subm)} {Q : 
           rw [h1] at this
           cases this with
           | yield _ _ hk => exact hk t _
+        · rw [h1] at hdp
+          cases hdp with
+          | yield _ _ _ hk => exact (hk t _).mono (by unfold maxDepth; omega)
       · cases hr
     · cases hr
 
@@ -588,6 +616,7 @@ structure KInv (d : Dialect) (clk : Time) (s : Sys) : Prop where
   g : s.g = defs d
   keys : KeysX s.db
   pendK : ∀ e ∈ s.pending, ∀ tx, e.2 = .store tx → KOk tx
+  halted : s.halted = none
   threads : s.halted = none → ∀ th ∈ s.threads, TInv d s.db s.pending s.cq clk th
   distinct : s.halted = none → TidsDistinct (s.threads.map (·.tid))
   apiQ : ∀ q ∈ s.apiQ, ReqOk d s.env q.2
@@ -642,9 +671,8 @@ theorem kinv_tick (d : Dialect) (s : Sys) (clk t : Time) (hbg : BgOk d s.env) (h
   rw [tick_eq2]
   split
   · rename_i hh
-    refine ⟨⟨h.g, h.keys, h.pendK, ?_, ?_, h.apiQ⟩, by intro e he; cases he⟩
-    · intro hn; rw [show s.halted = none from hn] at hh; cases hh
-    · intro hn; rw [show s.halted = none from hn] at hh; cases hh
+    rw [h.halted] at hh
+    cases hh
   · rename_i hh
     have hnone : s.halted = none := by cases hs : s.halted <;> simp_all
     obtain ⟨hclk, hnew1, hnew2⟩ := hok
@@ -659,14 +687,14 @@ theorem kinv_tick (d : Dialect) (s : Sys) (clk t : Time) (hbg : BgOk d s.env) (h
       have hst : Static d th := by
         rcases List.mem_append.mp hth with hb | hr
         · obtain ⟨tid, k, rfl⟩ := startBg_new _ _ _ _ _ _ _ th hb
-          exact ⟨fun t' lo now hle => hbg k t' lo now hle, fun t' => ak_bg s.env k t', fun hb => by cases hb⟩
+          exact ⟨fun t' lo now hle => hbg k t' lo now hle, fun t' => ak_bg s.env k t', (fun hb => by cases hb), fun t' => dp_bg s.env k t', fun t' => qk_bg s.env k t'⟩
         · obtain ⟨q, hq, rfl⟩ := (startReqs_new _ _ _ _).1 th hr
-          exact ⟨fun t' lo now _ => h.apiQ q (List.mem_of_mem_take hq) t t' lo now, fun t' => ak_req s.env q.2 t t', fun _ t' => rs_req s.env q.2 t t'⟩
+          exact ⟨fun t' lo now _ => h.apiQ q (List.mem_of_mem_take hq) t t' lo now, fun t' => ak_req s.env q.2 t t', fun _ t' => rs_req s.env q.2 t t', fun t' => dp_req s.env q.2 t t', fun t' => qk_req s.env q.2 t t'⟩
       have hco : th.co = .retry ∧ True := by
         rcases List.mem_append.mp hth with hb | hr
         · obtain ⟨tid, k, rfl⟩ := startBg_new _ _ _ _ _ _ _ th hb; exact ⟨rfl, trivial⟩
         · obtain ⟨q, hq, rfl⟩ := (startReqs_new _ _ _ _).1 th hr; exact ⟨rfl, trivial⟩
-      refine ⟨hst, by rw [hco.1]; exact .retry _ _, by rw [hco.1]; exact .retry, ?_, ?_, by intro _; rw [hco.1]; exact .retry⟩
+      refine ⟨hst, by rw [hco.1]; exact .retry _ _, by rw [hco.1]; exact .retry, ?_, ?_, by intro _; rw [hco.1]; exact .retry, by rw [hco.1]; exact Depth.retry _⟩
       · intro e he htid; exact absurd htid (hfresh.2.1 e he)
       · intro e he htid; exact absurd htid (hfresh.2.2 e (hdrop e he))
     -- 3. candidates
@@ -691,7 +719,7 @@ theorem kinv_tick (d : Dialect) (s : Sys) (clk t : Time) (hbg : BgOk d s.env) (h
         | some th' =>
           simp only [hr]
           have := resume_runnable (hd.1 th hth) hclk hr
-          exact ⟨this.static, this.np, this.ak, this.pend, fun e he => this.cq e (hdrop e he), this.rs⟩
+          exact ⟨this.static, this.np, this.ak, this.pend, fun e he => this.cq e (hdrop e he), this.rs, this.dp⟩
       · simp only [List.mem_map] at hc
         obtain ⟨th, hth, rfl⟩ := hc
         exact hnewR th hth
@@ -714,8 +742,8 @@ theorem kinv_tick (d : Dialect) (s : Sys) (clk t : Time) (hbg : BgOk d s.env) (h
       simp only [List.mem_map] at ha
       obtain ⟨th, hth, rfl⟩ := ha
       exact (hnew2 b hb).1 th hth
-    obtain ⟨r1, r2, _, r4, r5⟩ := runAll_spec d s.db (s.cq.drop s.env.cfg.completionBatchSize) t s.pending (s.cands t) hcd hcf hct
-    refine ⟨⟨h.g, h.keys, ?_, r5, fun _ => r4, ?_⟩, ?_⟩
+    obtain ⟨r1, r2, _, r4, r5, r6⟩ := runAll_spec d s.db (s.cq.drop s.env.cfg.completionBatchSize) t s.pending (s.cands t) hcd hcf hct
+    refine ⟨⟨h.g, h.keys, ?_, r6, r5, fun _ => r4, ?_⟩, ?_⟩
     · intro e he tx htx
       rcases List.mem_append.mp he with he | he
       · exact h.pendK e he tx htx
@@ -745,8 +773,8 @@ theorem tinv_step_db {d : Dialect} {db db' : Db} {P P' : List (SubId × Subm)} {
     (h : TInv d db P Q clk th) (hm : PromMono db db') (hp : ∀ e ∈ P', e ∈ P)
     (hq : ∀ e ∈ Q', e ∈ Q ∨ ∃ sub, (e.1, sub) ∈ P ∧ ∀ lo, PromMono lo db → AnswerOne d lo db' sub e.2) :
     TInv d db' P' Q' clk th := by
-  obtain ⟨hs, hrs, subs, k, lo, now, base, h1, h2, h3, h4, h5, h6, h7, h8, h9, h10⟩ := h
-  refine ⟨hs, hrs, subs, k, lo, now, base, h1, h2, h3, h4, h5.trans hm, h6, h7,
+  obtain ⟨hs, hrs, hdp, subs, k, lo, now, base, h1, h2, h3, h4, h5, h6, h7, h8, h9, h10⟩ := h
+  refine ⟨hs, hrs, hdp, subs, k, lo, now, base, h1, h2, h3, h4, h5.trans hm, h6, h7,
     slotsOk_mono (fun s c hsc => answerOne_mono hm hsc) _ _ _ h8, fun e he => h9 e (hp e he), ?_⟩
   intro e he htid
   rcases hq e he with hold | ⟨sub, hsub, hans⟩
@@ -918,7 +946,7 @@ theorem kinv_execStore (d : Dialect) (s : Sys) (clk : Time) (items : List (SubId
     KInv d clk (s.execStore items).1 := by
   rw [C06.execStore_eq]
   obtain ⟨c1, c2, c3⟩ := completions_spec d s h.g h.keys h.pendK items
-  refine ⟨h.g, c1, ?_, ?_, h.distinct, h.apiQ⟩
+  refine ⟨h.g, c1, ?_, h.halted, ?_, h.distinct, h.apiQ⟩
   · intro e he tx htx
     exact h.pendK e (List.mem_filter.mp he).1 tx htx
   · intro hn th hth
@@ -953,7 +981,7 @@ theorem kinv_complete (d : Dialect) (s : Sys) (clk : Time) (id : SubId) (c : Cpl
   · rename_i x hns hfind
     have hm := List.mem_of_find?_eq_some hfind
     have hid : x.1 = id := by simpa using List.find?_some hfind
-    refine ⟨h.g, h.keys, fun e he tx htx => h.pendK e (List.mem_filter.mp he).1 tx htx, ?_, h.distinct, h.apiQ⟩
+    refine ⟨h.g, h.keys, fun e he tx htx => h.pendK e (List.mem_filter.mp he).1 tx htx, h.halted, ?_, h.distinct, h.apiQ⟩
     intro hn th hth
     refine tinv_step_db (h.threads hn th hth) (PromMono.refl _) (fun e he => (List.mem_filter.mp he).1) ?_
     intro e he
@@ -1005,7 +1033,7 @@ theorem kinv_step (d : Dialect) (s : Sys) (clk : Time) (c : Choice) (hbg : BgOk 
     split
     · exact ⟨h, by intro e he; simp only [List.mem_singleton] at he; subst he; rfl⟩
     · split
-      · refine ⟨⟨h.g, h.keys, h.pendK, h.threads, h.distinct, ?_⟩, by intro e he; cases he⟩
+      · refine ⟨⟨h.g, h.keys, h.pendK, h.halted, h.threads, h.distinct, ?_⟩, by intro e he; cases he⟩
         intro q hq
         simp only [List.mem_append, List.mem_singleton] at hq
         rcases hq with hq | rfl
@@ -1019,9 +1047,9 @@ theorem kinv_step (d : Dialect) (s : Sys) (clk : Time) (c : Choice) (hbg : BgOk 
     intro e he
     simp only [Sys.step] at he
     split at he <;> cases he
-  | shutdown => exact ⟨⟨h.g, h.keys, h.pendK, h.threads, h.distinct, h.apiQ⟩, by intro e he; cases he⟩
+  | shutdown => exact ⟨⟨h.g, h.keys, h.pendK, h.halted, h.threads, h.distinct, h.apiQ⟩, by intro e he; cases he⟩
   | crash =>
-    refine ⟨⟨h.g, h.keys, ?_, ?_, ?_, ?_⟩, by intro e he; cases he⟩
+    refine ⟨⟨h.g, h.keys, ?_, rfl, ?_, ?_, ?_⟩, by intro e he; cases he⟩
     · intro e he; cases he
     · intro _ th hth; cases hth
     · intro _; exact List.Pairwise.nil
@@ -1044,8 +1072,14 @@ theorem run_no_assert (d : Dialect) : ∀ (cs : List Choice) (s : Sys) (clk : Ti
     · exact h2 e he
     · exact i1 e he
 
+/-- **no run ever halts**: neither on an assertion nor by exhausting the per-thread fuel of the model -/
+theorem run_never_halts (d : Dialect) (cs : List Choice) (s : Sys) (clk : Time) (hbg : BgOk d s.env) (h : KInv d clk s)
+    (hok : RunOk d clk s cs) : (s.run cs).halted = none := by
+  obtain ⟨_, clk', h'⟩ := run_no_assert d cs s clk hbg h hok
+  exact h'.halted
+
 /-- a freshly booted system over a database with unique keys -/
 theorem kinv_boot (d : Dialect) (env : Env) (db : Db) (clk : Time) (hk : KeysX db) : KInv d clk (Sys.boot env d (defs d) db) :=
-  ⟨rfl, hk, (by intro e he; cases he), (by intro _ th hth; cases hth), (by intro _; exact List.Pairwise.nil), (by intro q hq; cases hq)⟩
+  ⟨rfl, hk, (by intro e he; cases he), rfl, (by intro _ th hth; cases hth), (by intro _; exact List.Pairwise.nil), (by intro q hq; cases hq)⟩
 
 end Resonate
